@@ -843,6 +843,8 @@ def run(ctx, rep):
     c02_enum.run(ctx, rep)
     from rules import c02_edge
     c02_edge.run(ctx, rep)
+    from rules import c02_refs
+    c02_refs.run(ctx, rep)
     # "unique names", "declared", "matching the callee's inputs" are all statements about names as the language compares them
     from rules.c08 import rule_keys
     rule_keys(ctx, rep, rid="R-C02-keys", files=("analyzer/src/rule_", "analyzer/src/symbol_table", "analyzer/src/xform_resolve"), floor=5,
